@@ -1,8 +1,8 @@
 SPECIFICATION Spec
-CONSTANT Kind = "twophase"
+CONSTANT Kind = "single"
 CONSTANT MaxDepth = 4
 CONSTANT Deviation = "none"
-CONSTANT Setters = FALSE
+CONSTANT Setters = TRUE
 CONSTANT Export = FALSE
 INVARIANT TypeOK
 INVARIANT C10_Fresh
